@@ -20,7 +20,7 @@ def check(ctx):
     ctx.guard(r101, ctx)
     ctx.guard(r102, ctx)
     ctx.guard(r103, ctx)
-
+    ctx.guard(_shared_c10, ctx)
 
 def _is_complement_pair(A, t: T):
     """t is [1 - p, p] in one of the accepted container spellings; returns p or None."""
@@ -186,3 +186,14 @@ def r103(ctx):
         rs = e.data["fterm"].args[0]
         ok2 = rs.op == "call" and rs.args[0] is glob(CRS)
         ctx.ob("R10.3", r.func, e.node, ok2, "choice() draws from the seeded generator", construct="choice generator")
+
+
+def _shared_c10(ctx):
+    """Life-cycle (history independence, pure prediction) and label-position clauses of the estimator(s) this property
+    is about, shared with C19 R19.3/R19.4 and C12 R12.1 and reported under this property's rule ids."""
+    from .c12 import label_sinks
+    from .c19 import lifecycle_of
+    ctx.rule("R10.4", "fit does not depend on state left by an earlier fit and prediction writes no state (shared with C19 R19.3 / R19.4)")
+    lifecycle_of(ctx, [EG, IT], {"R19.3": "R10.4", "R19.4": "R10.4"})
+    ctx.rule("R10.5", "no caller-labelled pandas value reaches a label-aligning operation on the paths of this property (shared with C12 R12.1)")
+    label_sinks(ctx, "R10.5", [(EG + ".predict", EG), (IT + ".predict", IT)])
